@@ -12,7 +12,7 @@ a symbolic construction leaves the log, the registry and the class's __init__ ca
 from __future__ import annotations
 
 import eqlmc  # noqa: F401
-from entity_query_language import (an, the, entity, let, infer, symbolic_mode, rule_mode, MultipleSolutionFound, and_, or_, not_,
+from entity_query_language import (an, the, entity, let, infer, symbolic_mode, rule_mode, MultipleSolutionFound, and_, or_, not_, Add,
                                    NoSolutionFound)
 from entity_query_language.symbolic import SymbolicExpression
 
@@ -52,7 +52,8 @@ DECL = {"DB": "Base", "DS": "Sub", "DH": "Hand", "DU": "USub", "DD": "Dflt", "D0
         "DRh": "Hand",
         "DHa": "Hand"}                   # DHa: an(entity(v.k)) - only an ATTRIBUTE of the no-domain variable is selected                   # DRh: a rule whose HEAD (only) mentions a no-domain variable: Made(a=x, b=let(Hand))
 # declarations of the @conds family only (a no-domain variable that SEVERAL conditions mention)
-DECL2 = {"DBcc": "Base", "DBo": "Base", "DBn": "Base"}
+DECL2 = {"DBcc": "Base", "DBo": "Base", "DBn": "Base",
+         "DRa": "Hand"}      # DRa: a rule written with Add whose CONCLUSION only mentions a no-domain variable
 DECL.update(DECL2)
 SYMB = ("YB", "YH", "YS")
 MAX_Q = 2
@@ -79,7 +80,7 @@ def step(st, op):
 def c_enabled(st):
     """the @conds family: a small alphabet of its own around queries whose variable is mentioned by several conditions"""
     nq, _ = st
-    ops = ["KB", "KS", "KO", "C", "R"]
+    ops = ["KB", "KS", "KH", "KO", "C", "R"]
     if nq < MAX_Q:
         ops += list(DECL2) + ["DBc"]
     ops += [f"E{i}" for i in range(1, nq + 1)]
@@ -456,6 +457,14 @@ def run_case(hist, inst):
                         v = let(cls)
                         with symbolic_mode():
                             q = an(entity(v, v.k >= 0))
+                    elif op == "DRa":
+                        v = let(cls)
+                        xs = let(W.Item, src)
+                        with symbolic_mode():
+                            q = an(entity(views := let(W.View), xs.p >= 1))
+                        with rule_mode(q):
+                            Add(views, W.Made(a=xs, b=v))
+                        rule_heads.add(id(q))
                     elif op in DECL2:                     # conditions that every instance satisfies, all mentioning v
                         v = let(cls)
                         with symbolic_mode():
@@ -620,7 +629,8 @@ def describe(hist, inst):
     pre = ""
     if hist and hist[0] == "@conds":
         pre, hist = ("# DBcc=an(entity(v := let(Base), and_(v.k >= 0, v.v >= 0))) DBo=... or_(v.k < 0, v.v >= 0) "
-                     "DBn=... not_(or_(v.k < 0, v.v < 0))\n"), hist[1:]
+                     "DBn=... not_(or_(v.k < 0, v.v < 0)) DRa=q = an(entity(views := let(View), xs.p >= 1)); with rule_mode(q): "
+                     "Add(views, Made(a=xs, b=let(Hand)))  [xs over two Items]\n"), hist[1:]
     if hist and hist[0] == "@nocache":
         pre, hist = "disable_caching()   # for the whole history\n", hist[1:]
     return (pre + f"history: {' ; '.join(hist)}\n# {LEGEND}\n# expected at every E<i>: exactly the instances of the type "
